@@ -402,7 +402,11 @@ def run_equation(w, spec, objs, formspec, via):
     from sympde.expr import Equation, find
     trials = [w.fns[i] for i in spec["trials"]]
     tests = [w.fns[i] for i in spec["tests"]]
-    a, l, a_expr, l_expr = w.forms(trials, tests, formspec)
+    ftr, fte = [], []
+    for u, v in zip(trials, tests):          # an unknown listed twice enters the forms once
+        if not any(u is x for x in ftr):
+            ftr.append(u); fte.append(v)
+    a, l, a_expr, l_expr = w.forms(ftr, fte, formspec)
     bc, ok = build_bcarg(spec["bc"], objs)
     if not ok:
         return {"skip": "a condition of the list could not be built"}, None
